@@ -29,6 +29,10 @@ class P:
             cases.append("%s\t1" % hx(s))
             cases.append("%s\t0" % hx(s))
 
+        # after "[[" a quoted . = : opens no collating symbol, equivalence class or character class
+        for s in [".a.", "=a=", ":alpha:", ".", ".]", "a.]", ":", "=", ".a.]x", ":digit:]"]:
+            cases.append("%s\t0" % hx(s))
+
         def ok(c, o):
             return o.startswith("ok")
         # scanner correspondence: the word the parser builds for each pure style vs the scanner model (Lex/Quote.v)
